@@ -1,16 +1,27 @@
 #!/bin/bash
-# usage: trymut.sh <patch.diff> <ID> [<ID> ...]  -- applies a seeded change to /repo, runs the quick checks, reverts
+# usage: trymut.sh <patch.diff> <ID> [<ID> ...]
+# Runs the quick checks against a seeded change WITHOUT touching /repo or /verif: a scratch copy of /verif (with its
+# caches) and a scratch worktree of /repo's HEAD are made under /tmp, the patch is applied there, the checks run with
+# VERIF_REPO pointing at the worktree, and everything is removed afterwards.  (Several of these can run side by side,
+# and next to checks of the unchanged tree.)
 set -u
-patch=$1; shift
-cd /repo || exit 2
-if ! git apply --check "$patch" 2>/dev/null; then echo "patch does not apply"; exit 2; fi
-git apply "$patch"
-cd /verif
+patch=$(readlink -f "$1"); shift
+w=/tmp/mv_$$
+mkdir -p $w
+git -C /repo worktree add --detach $w/repo HEAD -q || { echo "cannot create worktree"; exit 2; }
+cleanup() { git -C /repo worktree remove --force $w/repo 2>/dev/null; rm -rf $w; git -C /repo worktree prune; }
+trap cleanup EXIT
+if ! git -C $w/repo apply --check "$patch" 2>/dev/null; then echo "patch does not apply"; exit 2; fi
+git -C $w/repo apply "$patch"
+rsync -a --exclude replays --exclude evidence --exclude seeded /verif/ $w/verif/
+mkdir -p $w/verif/replays $w/verif/evidence
+cd $w/verif
 for id in "$@"; do
   start=$(date +%s)
-  out=$(python3 check/check.py $id 2>&1 | tail -6)
-  echo "== $id ($(( $(date +%s) - start ))s): $(echo "$out" | grep -E 'VIOLATION' | head -1 | cut -c1-250)"
-  [ -z "$(echo "$out" | grep VIOLATION)" ] && echo "   (no violation reported) $(echo "$out" | grep -c KNOWN) known-finding line(s)"
+  out=$(VERIF_REPO=$w/repo python3 check/check.py $id 2>&1 | tail -8)
+  v=$(echo "$out" | grep -E 'VIOLATION' | head -1 | cut -c1-250)
+  echo "== $id ($(( $(date +%s) - start ))s): $v"
+  if [ -z "$v" ]; then echo "   (no violation reported) $(echo "$out" | grep -c KNOWN) known-finding line(s) $(echo "$out" | grep CHECK-ERROR | head -1)"; fi
+  rp=$(echo "$v" | sed -n 's/.*replay=\([^ ]*\).*/\1/p')
+  if [ -n "$rp" ] && [ -f "$rp" ]; then mkdir -p /tmp/mutreplays; cp "$rp" /tmp/mutreplays/ 2>/dev/null; fi
 done
-git -C /repo checkout -- .
-git -C /verif checkout -- lean/Cuckoo/Gen 2>/dev/null
